@@ -1,36 +1,79 @@
 #!/usr/bin/env python3
-"""usage: tools/mutant.py <patch.diff> <Cnn> [<Cnn>...]   (or 'all')
-Applies the patch to /repo's working tree, runs the quick checks, prints their exit codes and the
-VIOLATION lines, and restores /repo (git checkout -- .). Never commits anything."""
+"""usage: tools/mutant.py [--tier thorough] [--in-place] <patch.diff> <Cnn> [<Cnn>...]   (or 'all')
+Default: copies /repo's working tree (sources only) to a scratch directory under /tmp, applies the
+patch there and runs the checks against the copy (DSA_REPO), writing evidence to out/mut_evidence so
+that /verif/evidence is untouched; the copy is removed afterwards.
+--in-place: the protocol of the brief: git -C /repo apply, run the checks, git -C /repo checkout -- .
+Never commits anything."""
 import json
 import os
+import shutil
 import subprocess
 import sys
+import tempfile
+from concurrent.futures import ThreadPoolExecutor
 
 HERE = os.path.dirname(os.path.dirname(os.path.abspath(__file__)))
-patch = os.path.abspath(sys.argv[1])
-props = sys.argv[2:]
+args = sys.argv[1:]
+tier = "quick"
+inplace = False
+jobs = 4
+while args and args[0].startswith("--"):
+    if args[0] == "--tier":
+        tier = args[1]
+        args = args[2:]
+    elif args[0] == "--jobs":
+        jobs = int(args[1])
+        args = args[2:]
+    elif args[0] == "--in-place":
+        inplace = True
+        args = args[1:]
+    else:
+        sys.exit("unknown option " + args[0])
+patch = os.path.abspath(args[0])
+props = args[1:]
 if props == ["all"]:
     props = [c["property_id"] for c in json.load(open(os.path.join(HERE, "MANIFEST.json")))["checks"]]
-st = subprocess.run(["git", "-C", "/repo", "status", "--porcelain", "--untracked-files=no"], stdout=subprocess.PIPE, text=True).stdout.strip()
-if st:
-    print("refusing: /repo working tree is not clean:\n" + st)
-    sys.exit(3)
-r = subprocess.run(["git", "-C", "/repo", "apply", patch])
+env = dict(os.environ)
+scratch = None
+if inplace:
+    st = subprocess.run(["git", "-C", "/repo", "status", "--porcelain", "--untracked-files=no"], stdout=subprocess.PIPE, text=True).stdout.strip()
+    if st:
+        print("refusing: /repo working tree is not clean:\n" + st)
+        sys.exit(3)
+    r = subprocess.run(["git", "-C", "/repo", "apply", patch])
+else:
+    scratch = tempfile.mkdtemp(prefix="dsa_mut_", dir="/tmp")
+    subprocess.run(["rsync", "-a", "--exclude", "_build", "--exclude", ".git", "--exclude", "build", "/repo/", scratch + "/"], check=True)
+    r = subprocess.run(["git", "apply", patch], cwd=scratch)
+    env["DSA_REPO"] = scratch
+    env["DSA_EVIDENCE_DIR"] = os.path.join(HERE, "out", "mut_evidence")
 if r.returncode != 0:
     print("patch does not apply")
+    if scratch:
+        shutil.rmtree(scratch, ignore_errors=True)
     sys.exit(3)
 res = {}
+
+
+def one(p):
+    out = subprocess.run([os.path.join(HERE, "check"), p, "--tier", tier], stdout=subprocess.PIPE, stderr=subprocess.STDOUT, text=True, cwd=HERE, env=env)
+    return p, out
+
+
 try:
-    for p in props:
-        out = subprocess.run([os.path.join(HERE, "check"), p], stdout=subprocess.PIPE, stderr=subprocess.STDOUT, text=True, cwd=HERE)
-        res[p] = out.returncode
-        lines = [l for l in out.stdout.splitlines() if l.startswith(("VIOLATION", "ANALYSIS-BROKEN", "  at ", "  rule"))]
-        print("%s -> exit %d" % (p, out.returncode))
-        for l in lines[:9]:
-            print("   " + l)
+    with ThreadPoolExecutor(max_workers=jobs if not inplace else 1) as ex:
+        for p, out in ex.map(one, props):
+            res[p] = out.returncode
+            lines = [l for l in out.stdout.splitlines() if l.startswith(("VIOLATION", "ANALYSIS-BROKEN", "  at ", "  rule"))]
+            print("%s -> exit %d" % (p, out.returncode))
+            for l in lines[:9]:
+                print("   " + l)
 finally:
-    subprocess.run(["git", "-C", "/repo", "checkout", "--", "."])
+    if inplace:
+        subprocess.run(["git", "-C", "/repo", "checkout", "--", "."])
+    else:
+        shutil.rmtree(scratch, ignore_errors=True)
 fired = [p for p, rc in res.items() if rc == 1]
 broken = [p for p, rc in res.items() if rc == 2]
 print("FIRED: %s   BROKEN: %s" % (" ".join(fired) or "-", " ".join(broken) or "-"))
